@@ -2488,6 +2488,22 @@ impl StorageEngine {
                         
                         let mut shard_guard = shard.write().unwrap();
                         for key in expired_keys {
+                            // The index entry may be stale: the key may have been overwritten, persisted,
+                            // renamed over or given a later deadline since it was indexed or scanned.
+                            // Only a key whose own stored deadline has passed may be removed.
+                            let stored_deadline = shard_guard.data.get(&key).map(|v| (v.is_expired(), v.metadata.expires_at));
+                            match stored_deadline {
+                                Some((true, _)) => {}
+                                Some((false, Some(expires_at))) => {
+                                    shard_guard.expiring_keys.insert(key.clone(), expires_at);
+                                    continue;
+                                }
+                                _ => {
+                                    shard_guard.expiring_keys.remove(&key);
+                                    continue;
+                                }
+                            }
+                            
                             if let Some(stored_value) = shard_guard.data.remove(&key) {
                                 shard_guard.expiring_keys.remove(&key);
                                 
